@@ -401,3 +401,44 @@ fn c01_simdvec_resize_body(new_len: usize) {
     }
     kani::cover!(first[0] == i32::MIN && fill[0] == 9);
 }
+
+// ================================================================================================
+// C01: constant-block detection (bounded companion of Verus unit `is_constant`, which is unbounded
+// but tied to the text of the loop; this one accepts any rewrite of the body)
+// ================================================================================================
+
+fn is_constant_body<const N: usize>() {
+    let a: [i32; N] = kani::any();
+    let mut all_equal = true;
+    let mut i = 1;
+    while i < N {
+        if a[i] != a[0] {
+            all_equal = false;
+        }
+        i += 1;
+    }
+    assert!(is_constant(&a[..]) == all_equal);
+    kani::cover!(all_equal);
+    kani::cover!(!all_equal);
+}
+
+/// `is_constant(s)` is true exactly when every element equals the first (true for the empty and
+/// the one-element slice).  A CONSTANT subframe stores one sample for the whole block, so a
+/// `true` for a non-constant block loses audio (C01) and a `false` for a constant one only costs bits.
+//@ unit props=C01 tier=quick kind=bounded timeout=600 funcs="arrayutils::is_constant" bound="slices of 0, 1, 2, 3, 15, 16, 17, 31, 33 and 65 samples (below, at and above 16/32/64-lane boundaries); every i32 value"
+#[kani::proof]
+#[kani::unwind(70)]
+fn c01_is_constant_small() {
+    let e: [i32; 0] = [];
+    assert!(is_constant(&e[..]));
+    let one: [i32; 1] = kani::any();
+    assert!(is_constant(&one[..]));
+    is_constant_body::<2>();
+    is_constant_body::<3>();
+    is_constant_body::<15>();
+    is_constant_body::<16>();
+    is_constant_body::<17>();
+    is_constant_body::<31>();
+    is_constant_body::<33>();
+    is_constant_body::<65>();
+}
